@@ -1,2 +1,219 @@
+//! C09: limits at and around file sizes, oversized and endless streams, long chains of valid newer
+//! roots, delegation graphs with self- and mutual delegation, legitimate repositories whose files
+//! are exactly as large as their bounds.
 use crate::*;
-pub async fn generate(_ctx: &mut Ctx<'_>, _seed: u64, _thorough: bool) {}
+
+fn entries(n: usize) -> Vec<(usize, u64, u64)> {
+    (0..n).map(|i| (i % 8, 10 + i as u64, 100 + i as u64)).collect()
+}
+
+/// top -> role0 -> role1; role files may be made larger than targets.json
+fn repo(msgs: &mut MsgGen, cs: bool, big_roles: bool) -> Base {
+    let mut b = base_repo(msgs, cs, true);
+    if big_roles {
+        // names are indices into an 8-name table: make role documents long through many delegations
+        let many: Vec<ADRole> = Vec::new();
+        let _ = many;
+        b.roles[0].1.entries = entries(8);
+        b.roles[1].1.entries = entries(8);
+    }
+    b
+}
+
+fn file_len(world: &mut World<'_>, server: &[(AName, AResp)], pred: impl Fn(&AName) -> bool) -> u64 {
+    for (n, r) in server {
+        if pred(n) {
+            if let AResp::File(f) = r {
+                return world.file_bytes(f).len() as u64;
+            }
+        }
+    }
+    0
+}
+
+#[derive(Clone, Copy, Debug, PartialEq)]
+enum Kind { Root2, Timestamp, Snapshot, Targets, Role0, Role1 }
+const KINDS: [Kind; 6] = [Kind::Root2, Kind::Timestamp, Kind::Snapshot, Kind::Targets, Kind::Role0, Kind::Role1];
+
+fn is_kind(k: Kind, n: &AName) -> bool {
+    matches!((k, n), (Kind::Root2, AName::RootV(2)) | (Kind::Timestamp, AName::Timestamp) | (Kind::Snapshot, AName::Snapshot(_))
+        | (Kind::Targets, AName::Targets(_)) | (Kind::Role0, AName::Role(0, _)) | (Kind::Role1, AName::Role(1, _)))
+}
+
+/// limit of kind `k` set to `size + delta` (pinned length when pinned, configured limit otherwise)
+async fn limit_case(ctx: &mut Ctx<'_>, r: &mut Rng, k: Kind, delta: i64, pinned_len: bool, cs: bool, stream: Option<&str>) {
+    let mut world = World::new(ctx.pool, Names::default());
+    let mut msgs = MsgGen(0);
+    let b = repo(&mut msgs, cs, r.chance(1, 2));
+    let root2 = { let mut x = b.root.clone(); x.version = 2; x.msg = msgs.next(); x };
+    let pin = Pin { length: pinned_len, hash: r.chance(1, 2) };
+    let which = match k { Kind::Snapshot => "snapshot", Kind::Targets => "targets", Kind::Role0 => "role:0", Kind::Role1 => "role:1", _ => "" };
+    let mut limits = ALimits::default();
+    let adj = |size: u64| -> u64 { (size as i64 + delta).max(0) as u64 };
+    let asm = assemble_with(&mut world, cs, 1, 1, &b.top, &b.roles, pin, &std_online(), &mut msgs, &mut |w, real, m| {
+        if w == which && pinned_len {
+            m.length = Some(adj(real));
+        }
+    });
+    let mut server = asm.server;
+    server.push((AName::RootV(2), AResp::File(AFile::plain(AContent::Root(root2)))));
+    let size = file_len(&mut world, &server, |n| is_kind(k, n));
+    let unpinned = !pinned_len || matches!(k, Kind::Root2 | Kind::Timestamp);
+    if unpinned {
+        match k {
+            Kind::Root2 => limits.max_root_size = adj(size),
+            Kind::Timestamp => limits.max_timestamp_size = adj(size),
+            Kind::Snapshot => limits.max_snapshot_size = adj(size),
+            _ => limits.max_targets_size = adj(size),
+        }
+    }
+    if let Some(s) = stream {
+        for (n, resp) in server.iter_mut() {
+            if is_kind(k, n) {
+                if let AResp::File(f) = resp {
+                    match s {
+                        "endless" => f.endless = true,
+                        "padded" => f.pad = 3000 + r.below(5000),
+                        _ => {}
+                    }
+                }
+            }
+        }
+    }
+    let cyc = ACycle { limits, safe: true, now: 0, server, shipped: Some(b.root.clone()) };
+    let class = format!("limit-{k:?}-{}{}", if unpinned { "cfg" } else { "pin" }, stream.map(|s| format!("-{s}")).unwrap_or_default());
+    ctx.emit(&mut world, &class, &[cyc], delta.abs() <= 1 || stream.is_some(), json!({"delta": delta, "size": size})).await;
+}
+
+/// `n` valid newer roots, limit `m`
+async fn chain_case(ctx: &mut Ctx<'_>, n: u64, m: u64, cs: bool) {
+    let mut world = World::new(ctx.pool, Names::default());
+    let mut msgs = MsgGen(0);
+    let b = base_repo(&mut msgs, cs, false);
+    let asm = assemble(&mut world, cs, 1, 1, &b.top, &b.roles, Pin::default(), &std_online(), &mut msgs);
+    let mut server = asm.server;
+    for v in 2..=(n + 1) {
+        let mut x = b.root.clone();
+        x.version = v;
+        x.msg = msgs.next();
+        server.push((AName::RootV(v), AResp::File(AFile::plain(AContent::Root(x)))));
+    }
+    let cyc = ACycle { limits: ALimits { max_root_updates: m, ..ALimits::default() }, safe: true, now: 0, server, shipped: Some(b.root.clone()) };
+    ctx.emit(&mut world, "root-chain", &[cyc], n + 1 >= m, json!({"n": n, "max": m})).await;
+}
+
+/// delegation graph given as edges between role indices (0 = top-level is `usize::MAX`)
+async fn graph_case(ctx: &mut Ctx<'_>, label: &str, top_to: &[usize], edges: &[(usize, usize)], nroles: usize, cs: bool, pin: Pin) {
+    let mut world = World::new(ctx.pool, Names::default());
+    let mut msgs = MsgGen(0);
+    let b = base_repo(&mut msgs, cs, false);
+    let drole = |n: usize| ADRole { name: n, ids: vec![DK], thr: 1, patterns: vec!["*".into()] };
+    let mut top = b.top.clone();
+    top.entries = vec![];
+    top.deleg = Some(ADeleg { table: vec![DK], roles: top_to.iter().map(|&n| drole(n)).collect() });
+    let mut roles = Vec::new();
+    for i in 0..nroles {
+        let kids: Vec<ADRole> = edges.iter().filter(|(a, _)| *a == i).map(|(_, b)| drole(*b)).collect();
+        roles.push((i, ATargets {
+            version: 1, expires: 7 * DAY, entries: vec![],
+            deleg: if kids.is_empty() { None } else { Some(ADeleg { table: vec![DK], roles: kids }) },
+            msg: msgs.next(), sigs: valid_sigs(&[DK]),
+        }));
+    }
+    let asm = assemble(&mut world, cs, 1, 1, &top, &roles, pin, &std_online(), &mut msgs);
+    let cyc = ACycle { limits: ALimits::default(), safe: true, now: 0, server: asm.server, shipped: Some(b.root.clone()) };
+    ctx.emit(&mut world, &format!("graph-{label}"), &[cyc], true, json!({"top": top_to, "edges": edges})).await;
+}
+
+/// every file exactly at its bound; delegated roles larger than targets.json
+async fn legit_case(ctx: &mut Ctx<'_>, r: &mut Rng, cs: bool, pin: Pin) {
+    let mut world = World::new(ctx.pool, Names::default());
+    let mut msgs = MsgGen(0);
+    let mut b = base_repo(&mut msgs, cs, true);
+    b.top.entries = vec![];
+    b.roles[0].1.entries = entries(r.range(4, 8) as usize);
+    b.roles[1].1.entries = entries(r.range(0, 8) as usize);
+    let asm = assemble(&mut world, cs, 1, 1, &b.top, &b.roles, pin, &std_online(), &mut msgs);
+    let server = asm.server;
+    let mut limits = ALimits::default();
+    if r.chance(1, 2) {
+        // configured limits exactly as large as the largest file they apply to
+        limits.max_timestamp_size = file_len(&mut world, &server, |n| matches!(n, AName::Timestamp));
+        limits.max_snapshot_size = file_len(&mut world, &server, |n| matches!(n, AName::Snapshot(_)));
+        let t = file_len(&mut world, &server, |n| matches!(n, AName::Targets(_)));
+        let r0 = file_len(&mut world, &server, |n| matches!(n, AName::Role(0, _)));
+        let r1 = file_len(&mut world, &server, |n| matches!(n, AName::Role(1, _)));
+        limits.max_targets_size = t.max(r0).max(r1);
+    }
+    let cyc = ACycle { limits, safe: true, now: 0, server, shipped: Some(b.root.clone()) };
+    ctx.emit(&mut world, "legit-at-bounds", &[cyc], true, json!({"pin_len": pin.length})).await;
+}
+
+pub async fn generate(ctx: &mut Ctx<'_>, seed: u64, thorough: bool) {
+    let mut stream = 0u64;
+    let mut next = |s: &mut u64| { *s += 1; rng_for(seed, *s) };
+    // corpus: the two repaired defects
+    graph_case(ctx, "self", &[0], &[(0, 0)], 1, false, Pin::default()).await;
+    graph_case(ctx, "mutual", &[0], &[(0, 1), (1, 0)], 2, true, Pin { length: true, hash: false }).await;
+    { let mut r = next(&mut stream); legit_case(ctx, &mut r, false, Pin { length: true, hash: false }).await; }
+    let reps = if thorough { 12 } else { 1 };
+    for _ in 0..reps {
+        for k in KINDS {
+            for delta in [-100000i64, -1, 0, 1, 100000] {
+                for pinned in [false, true] {
+                    let mut r = next(&mut stream);
+                    let cs = r.chance(1, 2);
+                    limit_case(ctx, &mut r, k, delta, pinned, cs, None).await;
+                }
+            }
+            for s in ["endless", "padded"] {
+                for pinned in [false, true] {
+                    let mut r = next(&mut stream);
+                    let cs = r.chance(1, 2);
+                    let d = if r.chance(1, 2) { 0 } else { 100000 };
+                    limit_case(ctx, &mut r, k, d, pinned, cs, Some(s)).await;
+                }
+            }
+        }
+        for m in 0..=4u64 {
+            for n in 0..=(m + 3) {
+                chain_case(ctx, n, m, (m + n) % 2 == 0).await;
+            }
+        }
+        for (label, top, edges, n) in [
+            ("tree", vec![0, 1], vec![(0, 2), (1, 3)], 4usize),
+            ("self", vec![0], vec![(0, 0)], 1),
+            ("self-deep", vec![0], vec![(0, 1), (1, 1)], 2),
+            ("mutual", vec![0], vec![(0, 1), (1, 0)], 2),
+            ("cycle3", vec![0], vec![(0, 1), (1, 2), (2, 0)], 3),
+            ("diamond", vec![0, 1], vec![(0, 2), (1, 2)], 3),
+            ("dup-in-list", vec![0, 0], vec![], 1),
+            ("sibling-back", vec![0, 1], vec![(1, 0)], 2),
+            ("chain5", vec![0], vec![(0, 1), (1, 2), (2, 3), (3, 4)], 5),
+        ] {
+            for cs in [false, true] {
+                let mut r = next(&mut stream);
+                let pin = Pin { length: r.chance(1, 2), hash: r.chance(1, 2) };
+                graph_case(ctx, label, &top, &edges, n, cs, pin).await;
+            }
+        }
+        for _ in 0..8 {
+            let mut r = next(&mut stream);
+            let cs = r.chance(1, 2);
+            let pin = Pin { length: r.chance(3, 4), hash: r.chance(1, 2) };
+            legit_case(ctx, &mut r, cs, pin).await;
+        }
+    }
+    // random graphs
+    let n = if thorough { 6000 } else { 300 };
+    for _ in 0..n {
+        let mut r = next(&mut stream);
+        let nroles = r.range(1, 5) as usize;
+        let top: Vec<usize> = (0..r.range(1, 2)).map(|_| r.below(nroles as u64) as usize).collect();
+        let ne = r.below(6);
+        let edges: Vec<(usize, usize)> = (0..ne).map(|_| (r.below(nroles as u64) as usize, r.below(nroles as u64) as usize)).collect();
+        let cs = r.chance(1, 2);
+        let pin = Pin { length: r.chance(1, 2), hash: r.chance(1, 2) };
+        graph_case(ctx, "random", &top, &edges, nroles, cs, pin).await;
+    }
+}
